@@ -240,6 +240,10 @@ func (fr *Frame) staticCall(ctx *callCtx, callee *ssa.Function) Val {
 		if strings.HasSuffix(callee.Name(), "Logger") && callee.Signature.Recv() != nil {
 			return fr.pureHavoc(ctx)
 		}
+		if strings.HasPrefix(key, "daemons/pricefeed/metrics.GetLabelFor") || strings.HasPrefix(key, "lib/metrics.GetLabelFor") {
+			// telemetry label constructors (telemetry is dropped): result unconstrained, no effect
+			return fr.pureHavoc(ctx)
+		}
 		if c := e.prog.Contracts[key]; c != nil && callee != e.root && !(c.Uses["inline_at_calls"] && len(callee.Blocks) > 0 && fr.depth < e.maxInline && !fr.onStack(callee)) {
 			return fr.logRet(ctx, callee, fr.contractCall(ctx, callee, c))
 		}
@@ -582,7 +586,7 @@ func (e *Engine) callMods(fr *Frame, fn *ssa.Function, x ssa.CallInstruction, de
 			return
 		}
 		if strings.HasPrefix(fnPkgPath(callee), modPath) {
-			if strings.HasSuffix(callee.Name(), "Logger") {
+			if strings.HasSuffix(callee.Name(), "Logger") || strings.HasPrefix(funcKey(callee), "daemons/pricefeed/metrics.GetLabelFor") || strings.HasPrefix(funcKey(callee), "lib/metrics.GetLabelFor") {
 				return
 			}
 			if c := e.prog.Contracts[funcKey(callee)]; c != nil && !c.Uses["inline_at_calls"] {
@@ -1022,6 +1026,8 @@ func (fr *Frame) runDeferred(d deferRec, st *State) {
 	}
 	if isDropped(name) || strings.HasSuffix(name, ".Close") || strings.HasSuffix(name, ".Unlock") || strings.HasSuffix(name, ".RUnlock") {
 		if strings.HasSuffix(name, ".Unlock") || strings.HasSuffix(name, ".RUnlock") {
+			fr.e.initHeap("lock_held", "Bool")
+			fr.e.addObl(st, "lock", fr.lbl("deferred_unlock_of_a_held_lock"), fr.e.heap(st, "lock_held", "Bool"), d.d.Pos())
 			fr.e.setHeap(st, "lock_held", "Bool", "false")
 		}
 		return
